@@ -6,7 +6,8 @@ generators (textX->dot, any->dot, textX->PlantUML) are run through the real
 generator callables; `builtins.open` is wrapped (harness side, only for the
 output directory) by a file object whose i-th write / flush / close raises
 OSError iff selector fail_i is chosen.  Every write / flush / close call of an
-unfaulted run is one fault point = one path.  After a failing run the target
+unfaulted run is one fault point = one path, in two scenarios: generating into
+an empty directory and regenerating with overwrite over an existing complete file.  After a failing run the target
 file must not exist, and a second run without `overwrite` must generate the
 complete file (byte-identical to an unfaulted run).
 """
@@ -115,8 +116,13 @@ def explore(item):
                 fired.append((i, op))
                 raise OSError('injected fault at %s #%d' % (op, i))
         try:
+            # scenario selector: generate into an empty directory, or regenerate
+            # with overwrite over a complete file from an earlier run
+            regen = c.branch(z3.Bool('regenerate_over_existing'))
+            if regen:
+                run_generator(ti, d, lambda op: None)
             try:
-                out = run_generator(ti, d, hook)
+                out = run_generator(ti, d, hook, overwrite=regen)
                 failed = False
             except OSError:
                 failed = True
@@ -125,13 +131,13 @@ def explore(item):
                 return ('nofault', None, n[0])
             if os.path.exists(out):
                 size = os.path.getsize(out)
-                return ('left', {'fault': fired[0], 'size': size, 'full': len(ref)}, n[0])
+                return ('left', {'fault': fired[0], 'size': size, 'full': len(ref), 'regenerate': regen}, n[0])
             # second run without overwrite must produce the complete file
             out2 = run_generator(ti, d, lambda op: None)
             with open(out2) as f:
                 got = f.read()
             if _norm(got) != _norm(ref):
-                return ('incomplete', {'fault': fired[0], 'size': len(got), 'full': len(ref)}, n[0])
+                return ('incomplete', {'fault': fired[0], 'size': len(got), 'full': len(ref), 'regenerate': regen}, n[0])
             return ('ok', fired[0], n[0])
         finally:
             _rmtree(d)
@@ -160,9 +166,11 @@ def _rmtree(d):
         pass
 
 
-def replay_fault(ti, index):
+def replay_fault(ti, index, regenerate=False):
     d = tempfile.mkdtemp(prefix='c31r_')
     n = [0]
+    if regenerate:
+        run_generator(ti, d, lambda op: None)
 
     def hook(op):
         i = n[0]
@@ -171,7 +179,7 @@ def replay_fault(ti, index):
             raise OSError('injected fault')
     try:
         try:
-            run_generator(ti, d, hook)
+            run_generator(ti, d, hook, overwrite=regenerate)
             return False, 'fault point not reached'
         except OSError:
             pass
@@ -211,12 +219,12 @@ def main():
             elif not reported:
                 reported = True
                 ti = [i for i, t in enumerate(TARGETS) if '%s->%s' % t[:2] == r['target']][0]
-                bad, detail = replay_fault(ti, d['fault'][0])
+                bad, detail = replay_fault(ti, d['fault'][0], d.get('regenerate', False))
                 chk.cov['traces_validated_against_impl'] += 1
                 if bad or kind == 'incomplete':
                     chk.violation('%s: injected failure at %s #%d: %s (%d of %d bytes)' % (
                         r['target'], d['fault'][1], d['fault'][0], kind, d['size'], d['full']),
-                        {'target_index': ti, 'fault_index': d['fault'][0]})
+                        {'target_index': ti, 'fault_index': d['fault'][0], 'regenerate': d.get('regenerate', False)})
         chk.sample({'generator': r['target'], 'fault_points': r['fault_points'], 'clean_after_fault': r['ok'],
                     'file_left_or_incomplete': len(r['bad'])})
     chk.cov['paths_explored'] = paths
@@ -228,4 +236,4 @@ def main():
 
 
 def replay(data):
-    return replay_fault(data['target_index'], data['fault_index'])
+    return replay_fault(data['target_index'], data['fault_index'], data.get('regenerate', False))
